@@ -419,12 +419,6 @@ def check(pid, tier):
                 for i in idx:
                     mism.append({"shard": name, "index": i, "case": s["descs"][i]})
 
-    if mism and not shard_errs and cfg.get("rerun_mismatch"):
-        n0 = len(mism)
-        mism, rnotes = rerun_mismatches(pid, tier, seed, workdir, mism)
-        notes += rnotes
-        cases_ok += n0 - len(mism)
-
     # ---- decide
     known, fixed = load_known(pid)
     fail_by_class = {}
@@ -435,6 +429,12 @@ def check(pid, tier):
         if c in known:
             known_lines.append("KNOWN-FINDING: property=%s %s :: %s (e.g. input %s)" %
                                (pid, c, known[c], fs[0]["input"][:160]))
+    if mism and not shard_errs and cfg.get("rerun_mismatch") and not unknown_fail:
+        # (with a direct failure at hand the verdict does not rest on the model cases: no need to generate them again)
+        n0 = len(mism)
+        mism, rnotes = rerun_mismatches(pid, tier, seed, workdir, mism)
+        notes += rnotes
+        cases_ok += n0 - len(mism)
     th = tree_hash()
     # one VIOLATION line per failing class, at most 4 lines; the rest is folded into the last replay
     items = sorted(unknown_fail.items())
